@@ -128,9 +128,14 @@ def _prune(root, keep, max_keep=6):
         # it or reading from it
         now = time.time()
         ds = [(os.path.getmtime(os.path.join(root, d)), d) for d in os.listdir(root) if d != keep]
+        allds = sorted(ds, reverse=True)
         ds = [(m, d) for m, d in ds if now - m > 1800]
         ds.sort(reverse=True)
         for _, d in ds[max_keep:]:
+            shutil.rmtree(os.path.join(root, d), ignore_errors=True)
+        # hard cap on disk use (about 26 MB per tree): beyond 40 trees drop the least recently used ones even if they are
+        # younger than half an hour — with 40 newer trees around, nobody is still extracting into those
+        for _, d in allds[40:]:
             shutil.rmtree(os.path.join(root, d), ignore_errors=True)
     except OSError:
         pass
